@@ -76,8 +76,13 @@ def run(cmd, cwd=None, env=None, inp=None, timeout=None):
     e["CARGO_NET_OFFLINE"] = "true"
     if env:
         e.update(env)
-    p = subprocess.run(cmd, cwd=cwd, env=e, input=inp, stdout=subprocess.PIPE, stderr=subprocess.PIPE,
-                       text=True, timeout=timeout)
+    try:
+        p = subprocess.run(cmd, cwd=cwd, env=e, input=inp, stdout=subprocess.PIPE, stderr=subprocess.PIPE,
+                           text=True, timeout=timeout)
+    except subprocess.TimeoutExpired as ex:
+        # a child that does not come back is reported like one that died
+        return 124, (ex.stdout or b"").decode("utf-8", "replace") if isinstance(ex.stdout, bytes) else (ex.stdout or ""), \
+            "timeout after %ss: %s" % (timeout, " ".join(cmd[:3]))
     return p.returncode, p.stdout, p.stderr
 
 
@@ -237,7 +242,7 @@ def split_cases(lines):
 
 def run_pair(engine, ops_text, with_model=True):
     """Runs implementation and model on the same ops. Returns (impl_lines, model_lines, stats)."""
-    rc, iout, ierr = run([hbin(engine), "run", engine], inp=ops_text)
+    rc, iout, ierr = run([hbin(engine), "run", engine], inp=ops_text, timeout=1800)
     stats = {}
     m = re.search(r"STATS (\{.*\})", ierr)
     if m:
@@ -269,7 +274,7 @@ def run_pair(engine, ops_text, with_model=True):
                 else:
                     lines.append(next(it, "bad-op-unresolved"))
             model_in = "\n".join(lines) + "\n"
-        rc2, mo, me = run([DRV], inp=model_in)
+        rc2, mo, me = run([DRV], inp=model_in, timeout=1800)
         if rc2 == 0:
             mout = mo.splitlines()
         else:
